@@ -1,6 +1,7 @@
 """Harness descriptor + the per-property driver (explore, replay, classify, evidence)."""
 from __future__ import annotations
 
+import fnmatch
 import hashlib
 import importlib
 import json
@@ -47,7 +48,7 @@ def _match_known(prop, hname, v):
     for f in _known_findings():
         if f.get("status") != "open":
             continue  # "fixed" entries suppress nothing
-        if f["property"] != prop or f["harness"] != hname:
+        if f["property"] != prop or not fnmatch.fnmatchcase(hname, f["harness"]):
             continue
         if f["label"] != v["label"]:
             continue
